@@ -223,7 +223,7 @@ def case_merge(inp):
         st = load('spike_templates.npy')
         yield 'id-arrays-one-entry-per-spike', sc.shape == (n,) and st.shape == (n,), (sc.shape, st.shape)
         coff = yield from check_ids('cluster', sc, order, [s['sc'] for s in S])
-        toff = yield from check_ids('template', st, order, [s['st'] for s in S])
+        yield from check_ids('template', st, order, [s['st'] for s in S])
         yield 'id-dtypes-integer', sc.dtype.kind in 'iu' and st.dtype.kind in 'iu', (str(sc.dtype), str(st.dtype))
         cp = load('cluster_probes.npy')
         ok = cp.ndim == 1 and len(cp) >= int(sc.max()) + 1
@@ -337,9 +337,9 @@ def enumerate_cases(ctx):
     tv = list(nondecreasing((0, 1, 2), (2, 3)))               # 6 + 10 vectors, every tie pattern
     tv4 = [[0, 0, 1, 1], [1, 1, 1, 1], [0, 1, 1, 2], [0, 0, 0, 2]]
     ctx.scope('Merger spike/cluster writers on real directories: 1..3 probes, 2..4 spikes each, all non-decreasing time vectors of '
-              'length 2..3 over {0,1,2} for 1-2 probes (3 probes: length 2%s), 8 id patterns (gaps, curated splits/merges, no id 0), '
+              'length 2..3 over {0,1,2} for 1-2 probes (3 probes: %s), 8 id patterns (gaps, curated splits/merges, no id 0), '
               'TSV files in all/some/none of the probes, 4 (time dtype, id dtype) pairs, column-vector files'
-              % ('' if quick else ' and 3'))
+              % ('every second triple of length-2 vectors' if quick else 'length 2 all, longer ones a third'))
     R = ctx.rng     # id pattern / TSV presence / dtype / column-vector layout drawn independently (seeded) per run
 
     def probes_for(times_l):
@@ -366,7 +366,7 @@ def enumerate_cases(ctx):
         for t1 in tv3:
             for t2 in tv3:
                 i += 1
-                if not quick and i % 3 and len(t0) + len(t1) + len(t2) > 6:
+                if (quick and i % 2) or (not quick and i % 3 and len(t0) + len(t1) + len(t2) > 6):
                     continue
                 ctx.run('merge', {'probes': probes_for([t0, t1, t2])})
     # ---- whole driver
